@@ -506,7 +506,7 @@ func init() {
 		},
 		NeedsCLI: true,
 	}
-	const pairsQ, pairsT = 3, 25
+	const pairsQ, pairsT = 3, 60
 	p.Strata = append(p.Strata, mon.Stratum{
 		Name:       "diff-mode-all-flag-combinations",
 		CLI:        true,
